@@ -67,7 +67,12 @@ def run(tier, seed, only=None):
         cfgs.append(req.Cfg("-j16", flags=["-j16"]))
     cs = corpus.corpus(tier, extra=("opt", "choice", "subsume"))
     jobs = [(c, cfgs) for c in cs if c.family not in ("choice", "subsume")]
-    res = rcheck.run_jobs(PID, tier, jobs, only=only, level="other",
+    if only and only.startswith("k:"):
+        jobs = jobs[:1]
+        only_r = None
+    else:
+        only_r = only
+    res = rcheck.run_jobs(PID, tier, jobs, only=only_r, level="other",
                           what="RAM level: the transformed RAM for -j1/-j2/-j8 is proved equal to the least model (hence to each other) "
                                "for every database in the bound; PARALLEL placement obligations are checked on every emitted program "
                                "(outermost only; no guarded insert / erase under PARALLEL).  Lock, counter and union-find interleavings "
@@ -95,4 +100,7 @@ def run(tier, seed, only=None):
     finally:
         common.rm_rf(work)
     res.coverage["parallel_placement_programs"] = n
+    if not only or only.startswith("k:"):
+        from engine_k import c03k
+        c03k.extend(res, tier, seed, only)
     return res
